@@ -21,7 +21,8 @@ getcontext().prec = 60
 
 U = {"f64": F(1, 2 ** 53), "f32": F(1, 2 ** 24)}
 ETA = {"f64": F(1, 2 ** 1074), "f32": F(1, 2 ** 149)}
-FMAX = {"f64": F(2) ** 1023, "f32": F(2) ** 127}   # smallest subnormal: absolute slack per operation
+FMAX = {"f64": F(2) ** 1023, "f32": F(2) ** 127}
+FMIN_NORMAL = {"f64": F(1, 2 ** 1022), "f32": F(1, 2 ** 126)}   # smallest subnormal: absolute slack per operation
 SAFETY = 4
 
 
@@ -345,10 +346,12 @@ def with_lane(judge):
         if st != OK:
             return st, info
         # r2 = the whole-array routine applied to the owned lane: same bound, and r ~ r2 within the two tolerances
-        st2, info2 = judge(rec, "r2")
-        if st2 == BAD:
-            return BAD, "whole-array routine on the lane: " + str(info2)
-        worst = max(info, info2) if st2 == OK else info
+        worst = info
+        if "r2" in rec:
+            st2, info2 = judge(rec, "r2")
+            if st2 == BAD:
+                return BAD, "whole-array routine on the lane: " + str(info2)
+            worst = max(info, info2) if st2 == OK else info
         if "r3" in rec:
             # the whole-array routine applied to the lane as it lies in the array (strided / reversed view)
             st3, info3 = judge(rec, "r3")
@@ -632,7 +635,9 @@ def ratio_out_of_range(rec):
     for pi, qi in zip(p, q):
         if pi > 0 and qi > 0 and math.isfinite(pi) and math.isfinite(qi):
             r = F(qi) / F(pi)
-            if r >= FMAX[ty] * 2 or r <= ETA[ty] / 2:
+            # outside the NORMAL range: overflow, or (gradual) underflow, where the rounded quotient has lost
+            # most or all of its precision before the logarithm is taken
+            if r >= FMAX[ty] * 2 or r < FMIN_NORMAL[ty]:
                 return True
     return False
 
